@@ -64,6 +64,9 @@ func (e *integEngine) checkC12(x *integExpect) {
 	}
 	// (4) every task command running at the instant of Cancel is interrupted
 	running := 0
+	if e.cancelPreempted {
+		tCall = -1
+	}
 	for _, r := range e.execs {
 		if r.StartSeq < tCall && (r.EndSeq < 0 || r.EndSeq > tCall) {
 			if isTaskBlock(r.Info.Block) && r.Info.Owner[:min(4, len(r.Info.Owner))] != "ctx:" {
@@ -128,6 +131,7 @@ func (e *integEngine) checkC12(x *integExpect) {
 		}
 		if interrupted || (!want.Skipped && (ncmd < wantCmd || want.Failed)) {
 			c.Violate("C12", "success-after-cancel", "task %s reports success although it was interrupted or did not run completely (interrupted=%v, commands run %d of %d, model failed=%v)", t.Name, interrupted, ncmd, wantCmd, want.Failed)
+			c.Violate("C07", "success-although-incomplete", "task %s reports success although it did not run completely (interrupted=%v, commands run %d of %d): a task whose commands were cut short or never ran did not succeed", t.Name, interrupted, ncmd, wantCmd)
 		} else {
 			c.Count("c12_tasks_completed_despite_cancel")
 		}
